@@ -72,5 +72,154 @@ def run2 (s : State × State) : List (Bool × Label) → (State × State) × Lis
     let r := step2 s k l
     let rr := run2 r.1 rest
     (rr.1, r.2 :: rr.2)
+/-! ### The two process-global slots through the public front doors
+
+  /repo/src/setup.rs:305-331 (`Setup::init` = `init_slot(shared_slot())` = `try_init_slot(..).expect(..)`: panics
+  when the slot is taken; `try_init`), :380-421 (`init_internal` / `try_init_internal`: the same on the internal
+  slot, with `.with_filter(self.filter)` like every other component), :486-520 (`Init::flush_on_drop`,
+  `Drop for InitGuard`), /repo/src/lib.rs:173-229 (`emit::emitter()` = `*runtime::shared().emitter()` — the bare
+  emitter, not the runtime —, `filter()`, `ctxt()`, `clock()`, `rng()`, `blocking_flush()`), and the macros
+  without `rt:` (macros/src/args.rs:255-261: `emit::runtime::shared()`).
+
+  Each slot is an instance of the slot machine above. A configuration `i` additionally has the event filter
+  it was set up with; its ctxt contributes the ambient property `cfg = i`; its emitter's `blocking_flush`
+  succeeds iff the timeout is at least `flushNeeds` nanoseconds. -/
+
+/-- The filter a configuration is set up with (`Setup::emit_when`). -/
+inductive FSpec where
+  | all                  -- accepts everything
+  | none                 -- rejects everything
+  | minLvl (rank : Nat)  -- `emit::level::min_filter(level)`; ranks: debug 0, info 1, warn 2, error 3
+  | idGe (n : Nat)       -- a user filter on the event's `id` property
+  deriving Repr, DecidableEq
+
+/-- An event: its `id` property and its level (the rank of a typed `lvl` property), if any. -/
+structure GEvt where
+  id : Nat
+  lvl : Option Nat
+  deriving Repr, DecidableEq
+
+/-- An event without a level counts as Info (rank 1) for a level filter. -/
+def FSpec.accepts : FSpec → GEvt → Bool
+  | .all, _ => true
+  | .none, _ => false
+  | .minLvl m, e => decide (m ≤ e.lvl.getD 1)
+  | .idGe n, e => decide (n ≤ e.id)
+
+inductive GLabel where
+  | init (i : Nat) (f : FSpec)                 -- `setup(i, f).init()` (panics when the shared slot is taken)
+  | tryInit (i : Nat) (f : FSpec)              -- `….try_init()`
+  | initGuard (i : Nat) (f : FSpec) (t : Nat)  -- `….init().flush_on_drop(t)`, the guard is kept
+  | dropGuard                                  -- every kept guard is dropped
+  | initInternal (i : Nat) (f : FSpec)         -- `….init_internal()` (panics when the internal slot is taken)
+  | tryInitInternal (i : Nat) (f : FSpec)
+  | emit (e : GEvt)                            -- a macro without `rt:` / `runtime::shared().emit(e)`
+  | span (e : GEvt)                            -- a span macro without `rt:` (level = the macro's)
+  | direct (e : GEvt)                          -- `emit::emitter().emit(e)`
+  | emitInternal (e : GEvt)                    -- `runtime::internal().emit(e)`
+  | flush (t : Nat)                            -- `emit::blocking_flush(t)`
+  | observe                                    -- `emit::emitter()/filter()/ctxt()/clock()/rng()`
+  deriving Repr, DecidableEq
+
+/-- initialisers of the shared slot / of the internal slot -/
+def GLabel.initsShared : GLabel → Bool
+  | .init _ _ => true | .tryInit _ _ => true | .initGuard _ _ _ => true | _ => false
+def GLabel.initsInternal : GLabel → Bool
+  | .initInternal _ _ => true | .tryInitInternal _ _ => true | _ => false
+
+inductive GOut where
+  | inited (panicked : Bool)        -- the panicking forms: returned a handle / panicked
+  | tried (ok : Bool)               -- the try forms
+  | dropped
+  | sent (to : Option Nat)          -- which configuration's emitter received the event
+  | flushed (ok : Bool)
+  | comps (c : Option Nat)          -- all five accessors show configuration `c`; none = all empty
+  deriving Repr, DecidableEq
+
+/-- What an emitter received: the event, the ambient `cfg` property it arrived with (none = no ambient
+    context was added) and whether it arrived with an extent (the events have none of their own, so an extent is
+    the runtime clock's doing). -/
+structure Delivery where
+  cfg : Nat
+  evt : GEvt
+  amb : Option Nat
+  clocked : Bool
+  deriving Repr, DecidableEq
+
+def flushNeeds : Nat := 500
+
+structure GState where
+  shared : State
+  sharedF : Option FSpec           -- the filter of the configuration in the shared slot
+  internal : State
+  internalF : Option FSpec
+  guards : List (Nat × Nat)        -- kept `InitGuard`s: (configuration, timeout)
+  delivered : List Delivery        -- newest first
+  flushes : List (Nat × Nat)       -- every `blocking_flush` a configuration's emitter saw, newest first
+  deriving Repr, DecidableEq
+
+def g0 : GState := ⟨init0, none, init0, none, [], [], []⟩
+
+/-- `slot.init(runtime)` on the shared slot: all five components AND the filter go in together. -/
+def GState.initShared (s : GState) (i : Nat) (f : FSpec) : GState × Bool :=
+  let r := step s.shared (.init i)
+  match r.2 with
+  | .initResult true => ({ s with shared := r.1, sharedF := some f }, true)
+  | _ => ({ s with shared := r.1 }, false)
+
+def GState.initInternal (s : GState) (i : Nat) (f : FSpec) : GState × Bool :=
+  let r := step s.internal (.init i)
+  match r.2 with
+  | .initResult true => ({ s with internal := r.1, internalF := some f }, true)
+  | _ => ({ s with internal := r.1 }, false)
+
+/-- `runtime.emit(e)` on a slot's runtime: the configured filter decides; the ctxt adds `cfg`. An empty slot is
+    the empty runtime: nothing happens. -/
+def throughRuntime (slot : State) (flt : Option FSpec) (e : GEvt) : Option Delivery :=
+  match slot.slot, flt with
+  | some w, some f => if f.accepts e then some ⟨w, e, some w, true⟩ else none
+  | _, _ => none
+
+def gstep (s : GState) : GLabel → GState × GOut
+  | .init i f => let r := s.initShared i f; (r.1, .inited (!r.2))
+  | .tryInit i f => let r := s.initShared i f; (r.1, .tried r.2)
+  | .initGuard i f t =>
+    let r := s.initShared i f
+    if r.2 then ({ r.1 with guards := (i, t) :: r.1.guards }, .inited false) else (r.1, .inited true)
+  -- `Drop for InitGuard`: `self.inner.blocking_flush(self.timeout)` on the guard's OWN emitter
+  | .dropGuard => ({ s with guards := [], flushes := s.guards ++ s.flushes }, .dropped)
+  | .initInternal i f => let r := s.initInternal i f; (r.1, .inited (!r.2))
+  | .tryInitInternal i f => let r := s.initInternal i f; (r.1, .tried r.2)
+  | .emit e =>
+    match throughRuntime s.shared s.sharedF e with
+    | some d => ({ s with shared := (step s.shared (.emit e.id)).1, delivered := d :: s.delivered }, .sent (some d.cfg))
+    | none => (s, .sent none)
+  -- the span is enabled by the filter on its start event (which carries the macro's level and the id);
+  -- its completion then goes to the emitter with the ambient context, no second filtering
+  | .span e =>
+    match throughRuntime s.shared s.sharedF e with
+    | some d => ({ s with shared := (step s.shared (.emit e.id)).1, delivered := d :: s.delivered }, .sent (some d.cfg))
+    | none => (s, .sent none)
+  -- `emit::emitter()` is the bare emitter: no filter, no clock, no ambient properties
+  | .direct e =>
+    match s.shared.slot with
+    | some w => ({ s with shared := (step s.shared (.emit e.id)).1, delivered := ⟨w, e, none, false⟩ :: s.delivered }, .sent (some w))
+    | none => (s, .sent none)
+  | .emitInternal e =>
+    match throughRuntime s.internal s.internalF e with
+    | some d => ({ s with internal := (step s.internal (.emit e.id)).1, delivered := d :: s.delivered }, .sent (some d.cfg))
+    | none => (s, .sent none)
+  | .flush t =>
+    match s.shared.slot with
+    | some w => ({ s with flushes := (w, t) :: s.flushes }, .flushed (decide (flushNeeds ≤ t)))
+    | none => (s, .flushed true)
+  | .observe => (s, .comps s.shared.slot)
+
+def grun (s : GState) : List GLabel → GState × List GOut
+  | [] => (s, [])
+  | l :: rest =>
+    let (s', o) := gstep s l
+    let (sf, os) := grun s' rest
+    (sf, o :: os)
 
 end EmitModel.Slot
